@@ -716,15 +716,17 @@ func runC16(c *harness.Case) {
 	for {
 		got = got[:0]
 		canceled := false
+		reason := ""
 		for _, m := range e.fw.snapshot() {
 			if m.Canceled {
 				canceled = true
+				reason = m.CancelReason
 			}
 			got = append(got, m.Events...)
 		}
 		if canceled || (len(got) > 0 && uint64(got[len(got)-1].Kv.ModRevision) >= sentRev) {
 			if canceled {
-				c.Inconclusive("the etcd watch was cancelled by the server")
+				c.Inconclusive("the etcd watch was cancelled by the server: " + reason)
 				return
 			}
 			break
